@@ -1479,3 +1479,58 @@ def negloc(repo, schema=None, sites=None):
                     "header does not compile", "compiler/front_end/constraints.py", 0, "check_constraints")
     res.analysed = ["compiler/front_end/constraints.py"]
     return res
+
+
+def attrbackend(repo):
+    """R-ATTRBACKEND (C14/C16): `[(java) name: v]` is an attribute *for the java back end*: the core and the C++ back end
+    must neither read nor validate it.  Decided structurally on the three places that look attributes up by name:
+      (a) ir_util.get_attribute's match tests the attribute's `back_end` against the requested qualifier;
+      (b) attribute_util.gather_default_attributes keys a `$default` by a name that includes the qualifier;
+      (c) in header_generator every lookup of a C++ attribute (namespace, enum_case) passes the "cpp" qualifier, and each
+          `_verify_*_attribute` traversal action tests `back_end` before it touches the value."""
+    res = RuleResult("R-ATTRBACKEND")
+    iu = repo.mod("compiler/util/ir_util.py")
+    ga = [f for f in iu.top_funcs() if f.name == "get_attribute"]
+    if not ga:
+        raise AnalysisError("ir_util.get_attribute not found")
+    res.instances += 1
+    match = [n for n in walk_no_nested_funcs(ga[0].node) if isinstance(n, ast.If) and "name.text" in ast.unparse(n.test)]
+    if not match or "back_end" not in ast.unparse(match[0].test):
+        res.add(f"{iu.rel}|get_attribute|back_end", "ir_util.get_attribute matches attributes by name only: `[(java) byte_order: ...]` is "
+                "read as the core byte_order, `[byte_order] + [(cpp) byte_order]` trips the 'Duplicate attribute' assertion",
+                iu.rel, ga[0].node.lineno, "get_attribute")
+    au = repo.mod("compiler/util/attribute_util.py")
+    gd = [f for f in au.top_funcs() if f.name == "gather_default_attributes"]
+    if not gd:
+        raise AnalysisError("attribute_util.gather_default_attributes not found")
+    res.instances += 1
+    keyed = [n for n in walk_no_nested_funcs(gd[0].node) if isinstance(n, ast.Assign) and isinstance(n.targets[0], ast.Subscript)
+             and ast.unparse(n.targets[0].value) == "defaults"]
+    if not keyed:
+        raise AnalysisError("gather_default_attributes: the statement storing a default was not found")
+    k = keyed[0].targets[0].slice
+    if ast.unparse(k) == "attr.name.text" or not ("back_end" in ast.unparse(k) or (isinstance(k, ast.Call) and "name_for" in ast.unparse(k.func))):
+        res.add(f"{au.rel}|gather_default_attributes|key", f"`$default` attributes are keyed by `{ast.unparse(k)}`: a `(java) $default "
+                "byte_order` becomes the default byte order of every field", au.rel, keyed[0].lineno, "gather_default_attributes")
+    hg = repo.mod("compiler/back_end/cpp/header_generator.py")
+    for f in hg.funcs.values():
+        for n in walk_no_nested_funcs(f.node):
+            if isinstance(n, ast.Call) and (call_name(n) or "").split(".")[-1] == "get_attribute" and len(n.args) >= 2:
+                a = ast.unparse(n.args[1])
+                if a in ('"namespace"', "'namespace'") or a.endswith(("Attribute.NAMESPACE", "Attribute.ENUM_CASE")):
+                    res.instances += 1
+                    q = n.args[2] if len(n.args) > 2 else next((kw.value for kw in n.keywords if kw.arg == "back_end"), None)
+                    if not (isinstance(q, ast.Constant) and q.value == "cpp"):
+                        res.add(f"{hg.rel}|{f.qualname}|lookup|{a}", f"{f.qualname} looks up the C++ attribute {a} without the \"cpp\" "
+                                "qualifier", hg.rel, n.lineno, f.qualname)
+        if f.name.startswith("_verify_") and f.name.endswith("_attribute"):
+            res.instances += 1
+            first_if = next((n for n in f.node.body if isinstance(n, ast.If)), None)
+            if first_if is None or "back_end" not in ast.unparse(first_if.test) or not any(isinstance(x, ast.Return) for x in first_if.body):
+                res.add(f"{hg.rel}|{f.qualname}|qualifier", f"{f.qualname} validates every attribute of that name, whatever its back end: "
+                        "`[(java) enum_case: 7]` is AttributeError, `[(java) namespace: \"com.example\"]` is rejected as a C++ namespace",
+                        hg.rel, f.node.lineno, f.qualname)
+    if res.instances < 6 and not res.findings:
+        raise AnalysisError(f"only {res.instances} attribute lookups recognised")
+    res.analysed = [iu.rel, au.rel, hg.rel]
+    return res
